@@ -24,6 +24,34 @@ theorem gen_tables_as_modelled :
     Gen.C03.maxOrder = 2 ^ 30 ∧ Gen.C03.weightShiftPlus = 1 ∧ Gen.C03.orderDivPlus = 1 ∧
     Gen.C03.predNames.length = 13 ∧ Gen.C03.predNames.Nodup := by decide
 
+/-- `scoreOf` is the fold over the predicates' positions: what the probe table records is what the model computes -/
+theorem orderOf_eq_kinds (ps : List Pred) :
+    orderOf ps = orderOfScore (scoreOfKinds (ps.map (·.kind))) (ps.map (·.kind)).length := by
+  simp [orderOf, scoreOf, scoreOfKinds, List.foldl_map]
+
+/-- **The order arithmetic of the model is the one `PredicateList.make` was OBSERVED to perform** (table produced
+by running the tree under test): on the empty predicate set, every single default predicate, every pair, every
+triple, all thirteen, and two calls with 2 / 3 predicates of the same name (`custom`, which tells `|` from `+`),
+the returned `order` is `(MAX_ORDER − ⋁ 2^(n+1)) / (len + 1)` as the model computes it.  The coverage of the
+table is part of the statement (381 rows; every singleton and every pair of positions is there, the full set,
+the repeated position). -/
+theorem order_closed_form_on_probes :
+    (∀ p ∈ Gen.C03.orderProbes, orderOfScore (scoreOfKinds p.1) p.1.length = p.2) ∧
+    Gen.C03.orderProbes.length = 381 ∧
+    (∀ i ∈ List.range 13, ∀ j ∈ List.range 13,
+      i < j → [i] ∈ Gen.C03.orderProbes.map (·.1) ∧ [i, j] ∈ Gen.C03.orderProbes.map (·.1)) ∧
+    [] ∈ Gen.C03.orderProbes.map (·.1) ∧ List.range 13 ∈ Gen.C03.orderProbes.map (·.1) ∧
+    [12, 12] ∈ Gen.C03.orderProbes.map (·.1) ∧ [0, 12, 12, 12] ∈ Gen.C03.orderProbes.map (·.1) := by
+  decide +kernel
+
+/-- **`_find_views` was OBSERVED to enumerate as the model does**: on a scratch registry holding a marker for every
+(request iface, context iface, view type) of two 3-element resolution orders, the real function returned the 27
+markers in the order of the model's `sroPairsOf` with the view types innermost. -/
+theorem find_views_probe_as_modelled :
+    Gen.C03.findViewsProbe =
+      (sroPairsOf [0, 1, 2] [0, 1, 2]).flatMap fun (q, c) => Gen.C03.viewTypes.map fun t => (q, c, t) := by
+  decide +kernel
+
 /-! ## the central refinement -/
 
 /-- **Registering any list of views in any order and then looking a request up runs exactly the view
